@@ -270,3 +270,113 @@ instance decBurstMaster {ω τ : Type} (m : Slave ω τ) (mw : Bool) (ins : List
     Decidable (BurstMaster m mw ins) := decBurstFrom m mw m.init .free ins
 
 end Litex.WbMem
+
+namespace Litex.WbMem
+open Litex
+
+/-! ### The burst refinement interface (any slave): `Refines` with the burst obligation in place of the hold rule -/
+
+def BStepOk' {ω τ : Type} (sl : Slave ω τ) (f : Nat → Nat) (nb : Nat) (InvB : τ → Expect → Mem → Prop)
+    (s : τ) (e : Expect) (i : Req × ω) (M : Mem) : Prop :=
+  ((sl.out s i).ack = true → i.1.active = true) ∧
+  Consistent nb M (opNow sl f s i) ∧
+  InvB (sl.next s i) (e.next i.1 (sl.out s i).ack) (applyOps nb M (opNow sl f s i))
+
+/-- `BRefines sl f nb mw P InvB`: every cycle in which the master honours its burst obligation (`Expect.allows mw`)
+    preserves `InvB` and completes bus cycles consistently with the abstract byte memory. -/
+def BRefines {ω τ : Type} (sl : Slave ω τ) (f : Nat → Nat) (nb : Nat) (mw : Bool) (P : Req × ω → Prop)
+    (InvB : τ → Expect → Mem → Prop) : Prop :=
+  ∀ s e M i, InvB s e M → e.allows mw i.1 → P i → BStepOk' sl f nb InvB s e i M
+
+section
+variable {ω τ : Type} {sl : Slave ω τ} {f : Nat → Nat} {nb : Nat} {InvB : τ → Expect → Mem → Prop}
+  {s : τ} {e : Expect} {i : Req × ω} {M : Mem}
+
+theorem BStepOk'.ack_active (h : BStepOk' sl f nb InvB s e i M) (ha : (sl.out s i).ack = true) :
+    i.1.active = true := h.1 ha
+
+theorem BStepOk'.no_ack (h : BStepOk' sl f nb InvB s e i M) (hn : (sl.out s i).ack = false) :
+    InvB (sl.next s i) (e.next i.1 false) M := by
+  have h3 := h.2.2
+  have hop : opNow sl f s i = [] := by simp [opNow, hn]
+  rw [hop, hn] at h3
+  simpa [applyOps] using h3
+
+theorem BStepOk'.ack (h : BStepOk' sl f nb InvB s e i M) (ha : (sl.out s i).ack = true) :
+    (i.1.we = false → ∀ k, k < nb → i.1.sel.getD k false = true →
+        (sl.out s i).dat.getD k 0 = M (f i.1.adr * nb + k)) ∧
+    InvB (sl.next s i) (e.next i.1 true)
+      (if i.1.we then M.writeMasked (f i.1.adr * nb) (i.1.sel.take nb) i.1.dat else M) := by
+  have hact := h.1 ha
+  have hop : opNow sl f s i =
+      [{ adr := f i.1.adr, we := i.1.we, sel := i.1.sel, dat := if i.1.we then i.1.dat else (sl.out s i).dat }] := by
+    simp [opNow, ha, hact]
+  obtain ⟨_, h2, h3⟩ := h
+  rw [hop] at h2 h3
+  rw [consistent_single] at h2
+  refine ⟨?_, ?_⟩
+  · intro hwe k hk hsel
+    have := h2 hwe k hk hsel
+    simpa [hwe] using this
+  · rw [ha] at h3
+    simp only [applyOps] at h3
+    cases hwe : i.1.we
+    · simpa [hwe] using h3
+    · simp only [hwe, if_true] at h3 ⊢; exact h3
+
+end
+
+theorem BStepOk'.mk_no_ack {ω τ : Type} (sl : Slave ω τ) (f : Nat → Nat) (nb : Nat) (InvB : τ → Expect → Mem → Prop)
+    (s : τ) (e : Expect) (i : Req × ω) (M : Mem) (hn : (sl.out s i).ack = false)
+    (hinv : InvB (sl.next s i) (e.next i.1 false) M) : BStepOk' sl f nb InvB s e i M := by
+  have hop : opNow sl f s i = [] := by simp [opNow, hn]
+  refine ⟨(by rw [hn]; intro h; cases h), (by rw [hop]; simp [Consistent]), ?_⟩
+  rw [hop, hn]; simpa [applyOps] using hinv
+
+theorem BStepOk'.mk_ack {ω τ : Type} (sl : Slave ω τ) (f : Nat → Nat) (nb : Nat) (InvB : τ → Expect → Mem → Prop)
+    (s : τ) (e : Expect) (i : Req × ω) (M : Mem) (ha : (sl.out s i).ack = true) (hact : i.1.active = true)
+    (hread : i.1.we = false → ∀ k, k < nb → i.1.sel.getD k false = true →
+        (sl.out s i).dat.getD k 0 = M (f i.1.adr * nb + k))
+    (hinv : InvB (sl.next s i) (e.next i.1 true)
+      (if i.1.we then M.writeMasked (f i.1.adr * nb) (i.1.sel.take nb) i.1.dat else M)) :
+    BStepOk' sl f nb InvB s e i M := by
+  have hop : opNow sl f s i =
+      [{ adr := f i.1.adr, we := i.1.we, sel := i.1.sel, dat := if i.1.we then i.1.dat else (sl.out s i).dat }] := by
+    simp [opNow, ha, hact]
+  refine ⟨fun _ => hact, ?_, ?_⟩
+  · rw [hop, consistent_single]
+    intro hwe k hk hsel
+    simp only at hwe
+    have := hread hwe k hk hsel
+    simpa [hwe] using this
+  · rw [hop, ha]
+    simp only [applyOps]
+    cases hwe : i.1.we
+    · simpa [hwe] using hinv
+    · simp only [hwe, if_true] at hinv ⊢; exact hinv
+
+/-- From the per-cycle burst interface to whole runs. -/
+theorem BRefines.run {ω τ : Type} {sl : Slave ω τ} {f : Nat → Nat} {nb : Nat} {mw : Bool} {P : Req × ω → Prop}
+    {InvB : τ → Expect → Mem → Prop} (h : BRefines sl f nb mw P InvB) :
+    ∀ (ins : List (Req × ω)) (s : τ) (e : Expect) (M : Mem), InvB s e M → BurstFrom sl mw s e ins →
+      (∀ i ∈ ins, P i) → Consistent nb M (opsFrom sl f s ins) ∧ AckOnlyStrobedFrom sl s ins := by
+  intro ins
+  induction ins with
+  | nil => intro s e M _ _ _; simp [opsFrom, Consistent, AckOnlyStrobedFrom]
+  | cons i is ih =>
+    intro s e M hinv hb hP
+    obtain ⟨hall, hrest⟩ := hb
+    obtain ⟨hack, hcons, hnext⟩ := h s e M i hinv hall (hP i (List.mem_cons_self ..))
+    obtain ⟨h1, h2⟩ := ih _ _ _ hnext hrest (fun j hj => hP j (List.mem_cons_of_mem _ hj))
+    refine ⟨?_, hack, h2⟩
+    simp only [opsFrom]
+    rw [consistent_append]
+    exact ⟨hcons, h1⟩
+
+/-- The bursting SRAM in interface form. -/
+theorem Sram.brefines (c : SramCfg) (hd : 0 < c.depth) (hrw : c.readOnly = false) (hb : c.burst = true)
+    (haw : 4 ≤ c.aw) (init : List Byte) :
+    BRefines (sram c init) c.idx c.nb true (fun i => i.1.adr < 2 ^ c.aw) (Sram.BInv c) :=
+  fun s e M i hinv hall hP => Sram.bstep_ok c hd hrw hb haw init s e M i hinv hall hP
+
+end Litex.WbMem
